@@ -138,4 +138,31 @@ def enable(prog, keep):
             prog.bodies[key] = nb
             n += 1
     prog._children = None
+    # helpers that now only exist as copies inside their callers: every call of them was spliced in and nothing takes
+    # them as a function value. Who-may-do-what rules attribute their statements to the callers, not to the helper.
+    names = {(k[0], nm) for k, b in prog.bodies.items() if k[2] < 0 for nm in getattr(b, "inlined", ())}
+    still = set()
+    for k, b in prog.bodies.items():
+        if k[2] >= 0:
+            continue
+        for bl in b.blocks:
+            t = bl["term"]
+            if t["k"] == "call" and (t.get("resolved") or t.get("callee")):
+                still.add((k[0], norm(t.get("resolved") or t.get("callee"))))
+            for s in bl["stmts"]:
+                txt = None
+                rv = s.get("rv", {})
+                for o in ([rv.get("o")] if rv.get("k") in ("use", "cast") else rv.get("ops", []) if rv.get("k") == "agg" else []):
+                    if o and o.get("k") == "const" and o["c"].get("fn"):
+                        still.add((k[0], norm(o["c"]["fn"])))
+            if t["k"] == "call":
+                for a in t["args"]:
+                    if a.get("k") == "const" and a["c"].get("fn"):
+                        still.add((k[0], norm(a["c"]["fn"])))
+    prog._absorbed = names - still
     return n
+
+
+def absorbed(prog, body):
+    """True when `body` is a helper that lib.inline spliced into every one of its callers (and nothing uses it as a value)."""
+    return (body.crate, body.path) in getattr(prog, "_absorbed", ())
